@@ -423,6 +423,14 @@ class Canon(ast.NodeTransformer):
             for o in out:
                 ast.fix_missing_locations(o)
             return out
+        # a, b, c = 0, [], 0  (plain names, literal start values) is  a = 0; b = []; c = 0
+        if len(node.targets) == 1 and isinstance(node.targets[0], ast.Tuple) and isinstance(node.value, ast.Tuple) and len(node.targets[0].elts) == len(node.value.elts) >= 2 \
+                and all(isinstance(t, ast.Name) for t in node.targets[0].elts) \
+                and all(isinstance(v, ast.Constant) or (isinstance(v, (ast.List, ast.Tuple, ast.Set)) and not v.elts) or (isinstance(v, ast.Dict) and not v.keys) for v in node.value.elts):
+            out = [ast.copy_location(ast.Assign(targets=[t], value=v), node) for t, v in zip(node.targets[0].elts, node.value.elts)]
+            for o in out:
+                ast.fix_missing_locations(o)
+            return out
         # D[k] = D[k] + e  is  D[k] += e   (an element update either way; plain names are left alone: for a list the two differ)
         if len(node.targets) == 1 and isinstance(node.targets[0], ast.Subscript) and isinstance(node.value, ast.BinOp) and isinstance(node.value.op, (ast.Add, ast.Sub, ast.Mult)) \
                 and ast.dump(_as_load(node.targets[0])) == ast.dump(node.value.left):
